@@ -298,6 +298,11 @@ class Summary:
             return p.env.get(place[0], TOP)
         # a field of a tuple / Option held in the environment
         base = p.env.get(place[0])
+        if isinstance(base, tuple) and base and base[0] == "valref" and all(e == "*" for e in projs):
+            return base[1]       # a reference returned by get_or_insert & co., resolved to the value it points to
+        if isinstance(base, tuple) and base and base[0] in ("elem", "item", "stored", "captured", "mapped", "front", "back", "error",
+                                                             "combined", "boxed", "adt", "itemfield") and all(e == "*" for e in projs):
+            return base          # a reference to a value the abstraction only names: the name stands for it
         if base is not None and "*" not in projs:
             v = base
             for e in projs:
@@ -325,9 +330,10 @@ class Summary:
         if g[3] and g[3][0].startswith("@"):
             # the payload of an Option-valued state cell: ((*cell) as Some).0
             root = (g[0], g[1], g[2], ())
-            if (self._alloc_kind(root) or ("?",))[0] == "optcell":
+            rkind = self._alloc_kind(root) or ("?",)
+            if rkind[0] == "optcell":
                 vk = (root, "val")
-                if vk in p.cells or self._is_intlike(self._place_ty(place)) or want_int:
+                if vk in p.cells or self._is_intlike(self._place_ty(place)) or want_int or (len(rkind) > 2 and rkind[2] == "int"):
                     return p.cells.get(vk, INT("ov:" + self._sym(root)))
                 return ("stored",)
         kind = self._alloc_kind(g)
@@ -382,7 +388,7 @@ class Summary:
             v = self.read_place(p, rv["p"])
             if isinstance(v, tuple) and v and v[0] in ("captured", "item", "error", "stored", "front", "back", "bufcopy",
                                                        "window", "mapped", "tuple", "opt", "int", "bconst", "bvar", "cmp", "not",
-                                                       "and", "or", "ord", "combined"):
+                                                       "and", "or", "ord", "combined", "elem"):
                 return v
             return TOP
         if k == "cast":
@@ -514,7 +520,7 @@ class Summary:
 
     def _value_kind(self, p, v):
         if isinstance(v, tuple) and v and v[0] in ("item", "front", "back", "bufcopy", "window", "captured", "stored", "mapped",
-                                                   "error", "combined"):
+                                                   "error", "combined", "elem"):
             return v[0]
         if isinstance(v, tuple) and v and v[0] == "bconst":
             return "const:%s" % str(v[1]).lower()
@@ -627,7 +633,9 @@ class Summary:
                 p.cells[recv_g] = INT(None, 0)
                 return done(p)
             name = path.split("::")[-1]
-            if name in ("iter", "get", "front", "back", "capacity", "as_slices", "contains", "first", "last"):
+            if name in ("get", "front", "first"):
+                return done(p, ("opt", TOP, ("elem",)))
+            if name in ("iter", "back", "capacity", "as_slices", "contains", "last"):
                 return done(p)
             if name in ("truncate", "drain", "retain", "remove", "insert", "append", "extend", "split_off", "resize", "swap_remove"):
                 p.cells[recv_g] = TOP
@@ -639,6 +647,11 @@ class Summary:
             p.trace.append(("map_insert",))
             if is_int(kv):
                 p.note.append(("mapkey", kv))
+            return done(p)
+        if path in ("std::ops::Index::index", "std::ops::IndexMut::index_mut") and c.args:
+            gs = self._gcells(b.operand_prov(c.args[0]))
+            if gs and len(gs) == 1 and (self._alloc_kind((lambda g: (g[0], g[1], g[2], ()))(next(iter(gs)))) or ("?",))[0] == "cont":
+                return done(p, ("elem",))
             return done(p)
         if path in ("std::mem::take", "std::mem::replace") and c.args:
             gs = self._gcells(b.operand_prov(c.args[0]))
@@ -810,7 +823,28 @@ class Summary:
                     p.cells[g] = FALSE
                     return done(p, ("opt", old, ("stored",)))
                 if name == "get_or_insert":
+                    nv = self.operand(p, c.args[1], True) if len(c.args) > 1 else TOP
+                    cur = p.cells.get((g, "val"), INT("ov:" + self._sym(g)))
+                    if is_int(nv) and is_bool(old):
+                        if old == TRUE:
+                            return done(p, ("valref", cur))
+                        if old == FALSE:
+                            p.cells[g] = TRUE
+                            p.cells[(g, "val")] = nv
+                            p.trace.append(("remember", "int"))
+                            return done(p, ("valref", nv))
+                        q = p.fork()
+                        p.pc.append(old)
+                        done(p, ("valref", cur))
+                        q.pc.append(b_not(old))
+                        q.cells[g] = TRUE
+                        q.cells[(g, "val")] = nv
+                        q.trace.append(("remember", "int"))
+                        done(q, ("valref", nv))
+                        return
                     p.cells[g] = TRUE
+                    if not is_int(nv):
+                        p.trace.append(("remember", self._payload_kind(p, c, 1)))
                     return done(p, ("stored",))
                 p.cells[g] = TRUE
                 p.trace.append(("remember", self._payload_kind(p, c, 1)))
@@ -883,7 +917,7 @@ class Summary:
                         return done(p, ("bufcopy",))
             if isinstance(v, tuple) and v and v[0] in ("opt", "item", "front", "back", "bufcopy", "window", "int", "tuple", "captured",
                                                        "stored", "mapped", "error", "bvar", "bconst", "combined", "adt", "itemfield",
-                                                       "boxed", "res", "cmp", "not", "and", "or"):
+                                                       "boxed", "res", "cmp", "not", "and", "or", "elem"):
                 if v[0] == "opt" and path.endswith("unwrap"):
                     return done(p, v[2])
                 return done(p, v)
